@@ -259,7 +259,7 @@ class TemplateLookup(TemplateCollection):
         if key in self._uri_cache:
             return self._uri_cache[key]
 
-        if uri[0] == "/":
+        if uri[:1] == "/":
             v = self._uri_cache[key] = uri
         elif relativeto is not None:
             v = self._uri_cache[key] = posixpath.join(
